@@ -115,7 +115,7 @@ MkSchema(L, r, kind, q, pos, v, ap) ==
                  @@ (IF layDefsIn(ns, {"com"}) # {} THEN (X :> LayComBody(ns)) ELSE <<>>),
          ets |-> (IF ns = r THEN [P |-> StdE(pPar, pAttrs, pTags), E |-> EnumE(<<"x", "y\"z">>)] ELSE <<>>)
                  @@ (IF ns = o THEN [B |-> StdE(IF v = 1 THEN {<<"", "B">>} ELSE {}, [u |-> <<RF("eoc", r, "C"), FALSE>>, p |-> <<RF("eoc", r, "P"), TRUE>>], NoTg)] ELSE <<>>)
-                 @@ (IF layDefsIn(ns, {"ent"}) # {} THEN (X :> StdE({}, <<>>, NoTg)) ELSE <<>>)
+                 @@ (IF layDefsIn(ns, {"ent"}) # {} THEN (X :> StdE({}, <<>>, IF v = 1 THEN <<"Set", PR("Long")>> ELSE NoTg)) ELSE <<>>)   \* tags without attributes
                  @@ (IF layDefsIn(ns, {"enum"}) # {} THEN (X :> EnumE(<<"one">>)) ELSE <<>>),
          acts |-> (IF ns = r THEN [g |-> GroupD(gPar), read |-> ActD(readPar, TRUE, princ, res, ctx)] ELSE <<>>)
                   @@ (IF ns = o THEN [g2 |-> GroupD({})] ELSE <<>>)
